@@ -1,7 +1,7 @@
 """C18 -- printed labels: digit counts, join/concatenate, label constants (value-level functions of string_constant.hh).  DESIGN.md section 5."""
 from core import Ob, Wrapper
 
-ASSUMPTIONS = ['operator<< goes through iostreams, which have no body here: not decided',
+ASSUMPTIONS = ['operator<< is decided up to the std::ostream inserters, which are trusted recorder stubs (the obligation pins WHICH overload is called with WHAT; the characters the stream then produces are libstdc++\'s business)',
                'label TEXT of a unit is a compile-time constant; it is compared with the documented grammar per grid unit (constant obligations), not for all unit expressions',
                'StringConstant<N>::join loops have the compile-time constant N as trip count: they are unwound completely (unwinding assertions on), which is complete for the instance']
 
@@ -95,4 +95,28 @@ def obligations(tier, seed):
         checks += ["  CHECK(%s(%d) == %d, \"char-%d\");" % (w.name, i, ord(ch), i) for i, ch in enumerate(text + '\0')]
         obs.append(Ob(id='C18.label.%s' % nm, prop='C18', group='C18.label', prelude=PRE, wrappers=[w, wsz], inputs=[], body='\n' + '\n'.join(checks) + '\n',
                       contract='label constant == "%s" with reported size %d (NUL terminated)' % (text, len(text) + 1), functions_under_contract=('au::unit_label / IToA / UIToA (constant data)',)))
+    # ---- streaming: operator<<(ostream&, Quantity) inserts the NUMERIC value (integer promotion: never the char overload), then " ", then the label.
+    #      The ostream is not modelled: its inserters are trusted recorder stubs that log which overload was called with what (ghost log).
+    IOPRE = '#include <ostream>\n#include "au/io.hh"\n#include "au/units/meters.hh"\n#include "au/units/seconds.hh"'
+    KIND = {'i': 4, 'j': 5, 'l': 6, 'm': 7, 'd': 11, 'f': 10, 'PKc': 16, 'c': 13, 'a': 14, 'h': 15}
+    for (nm, cty, cxx, kind, isfp) in (('i8', 'int8_t', 'int8_t', 'i', False), ('u8', 'uint8_t', 'uint8_t', 'i', False), ('char', 'int8_t', 'char', 'i', False),
+                                       ('schar', 'int8_t', 'signed char', 'i', False), ('uchar', 'uint8_t', 'unsigned char', 'i', False),
+                                       ('i16', 'int16_t', 'int16_t', 'i', False), ('u16', 'uint16_t', 'uint16_t', 'i', False), ('i32', 'int32_t', 'int32_t', 'i', False),
+                                       ('u32', 'uint32_t', 'uint32_t', 'j', False), ('i64', 'int64_t', 'int64_t', 'l', False), ('u64', 'uint64_t', 'uint64_t', 'm', False),
+                                       ('f64', 'double', 'double', 'd', True), ('f32', 'float', 'float', 'f', True)):
+        w = Wrapper('w_stream_' + nm, 'void', [('void*', 'out'), (cty, 'x')], '*static_cast<std::ostream*>(out) << au::make_quantity<au::Meters>((%s)x);' % cxx)
+        val = ('ll2c_io_fp[0] == (double)x || (x != x)') if isfp else 'll2c_io_int[0] == (int64_t)x'
+        body = '''
+  char stream_object;
+  %s(&stream_object, x);
+  CHECK(ll2c_io_n == 3, "exactly-three-insertions");
+  CHECK(ll2c_io_kind[0] >= 2 && ll2c_io_kind[0] <= 12, "first-insertion-is-a-numeric-overload-never-a-character");
+  CHECK(%s, "numeric-value-is-the-stored-value");
+  CHECK(ll2c_io_kind[1] == 16 && ll2c_io_ptr[1][0] == 32 && ll2c_io_ptr[1][1] == 0, "then-exactly-one-space");
+  CHECK(ll2c_io_kind[2] == 16 && ll2c_io_ptr[2][0] == 109 && ll2c_io_ptr[2][1] == 0, "then-the-unit-label");
+''' % (w.name, val)
+        obs.append(Ob(id='C18.stream.%s' % nm, prop='C18', group='C18.stream', prelude=IOPRE, wrappers=[w], inputs=[(cty, 'x')], body=body, fp=isfp,
+                      contract='out << meters((%s)x): exactly three insertions: a NUMERIC operator<< overload with the stored value (never operator<<(char) / (signed char) / (unsigned char)), '
+                               'then " ", then the label "m" (std::ostream inserters are trusted recorder stubs)' % cxx,
+                      functions_under_contract=('au::operator<<(std::ostream&, Quantity<U,R>)',)))
     return obs
